@@ -224,7 +224,7 @@ fn on_spans(rep: &mut Report) {
         }
     }
     // case-insensitive literal: the stored spelling is the text inside the span
-    for (text, a, b, exp) in [("ABé", 0usize, 4usize, Some("ABé")), ("ABéx", 0, 2, None), ("xaBÉ", 1, 3, None)] {
+    for (text, a, b, exp) in [("ABé", 0usize, 4usize, Some("ABé")), ("ABéx", 0, 2, None), ("xaBÉ", 1, 3, None), ("abÉ", 0, 4, None), ("xABÉ", 1, 5, None)] {
         rep.cases += 1;
         let got = parse_in_span::<Insens<Kw>>(text, a, b).map(|(_, n)| n.content.to_string());
         if got.as_deref() != exp {
